@@ -101,10 +101,56 @@ def tamper_phase(rep, tier, seed):
     rep.extra["tamper_failures"] = len(fails)
 
 
+def foreign_object_phase(rep, tier, seed):
+    """objects that rocfl did not write itself and cannot update - declared under an OCFL version it does not know - are
+    still objects: a new object must not be committed beneath (or a purge reach into) their roots"""
+    import os, random, re
+    from vlib import phys, faultprop
+    rng = random.Random(seed + 13)
+    fails = []
+    for i in range(3 if tier != "thorough" else 20):
+        sb = phys.Sandbox(ext_staging=(i % 2 == 1))
+        try:
+            open(os.path.join(sb.src, "a.txt"), "wb").write(b"alpha")
+            layout = rng.choice(["0002-flat-direct-storage-layout", "none"])
+            sb.run(["init", "-l", layout])
+            sb.run(["new", "a"]); sb.run(["cp", "a", os.path.join(sb.src, "a.txt"), "--", "/"])
+            sb.run(["commit", "-c", faultprop.TS, "a"] + (["-r", "a"] if layout == "none" else []))
+            root_a = os.path.join(sb.root, "a")
+            decl = [f for f in os.listdir(root_a) if f.startswith("0=ocfl_object_")]
+            if not decl:
+                continue
+            ver = rng.choice(["1.2", "2.0", "9.9"])
+            os.rename(os.path.join(root_a, decl[0]), os.path.join(root_a, "0=ocfl_object_" + ver))
+            open(os.path.join(root_a, "0=ocfl_object_" + ver), "w").write("ocfl_object_%s\n" % ver)
+            before = phys.tree(root_a)
+            nested = rng.choice(["a/b", "a/v1/x", "a/b/c"])
+            sb.run(["new", nested]); sb.run(["cp", nested, os.path.join(sb.src, "a.txt"), "--", "/"])
+            r = sb.run(["commit", "-c", faultprop.TS, nested] + (["-r", nested] if layout == "none" else []))
+            rep.evaluations += 1
+            rep.classes.add("foreign|%s|%s|rc%d" % (layout.split("-")[0], nested, min(r["rc"], 3)))
+            after = phys.tree(root_a)
+            if r["rc"] == 0 or after != before:
+                fails.append("an object declared as OCFL %s sits at `a`; committing `%s` (exit %d) %s" % (ver, nested, r["rc"], "wrote beneath its root: %s" % sorted(set(after) - set(before))[:3] if after != before else "succeeded"))
+            r = sb.run(["purge", "-f", "a/v1"])
+            if phys.tree(root_a) != after:
+                fails.append("an object declared as OCFL %s sits at `a`; `purge a/v1` (exit %d) removed parts of it" % (ver, r["rc"]))
+        finally:
+            sb.close()
+    seen = set()
+    for f in fails:
+        key = re.sub(r"\d", "#", f)[:60]
+        if key in seen or len(seen) >= 2:
+            continue
+        seen.add(key)
+        rep.violation(dict(kind="oracle-failure", oracle="new-object-guard (foreign declaration)", what=f))
+
+
 def run(rep, tier, seed, proof_broken=False):
     import vlib.props.C12 as me
     physprop.run(rep, me, tier, seed, proof_broken)
     tamper_phase(rep, tier, seed)
+    foreign_object_phase(rep, tier, seed)
 
 
 def replay(rep, payload):
